@@ -31,20 +31,33 @@ Last(s) == s[Len(s)]
 Item(e) == [k |-> e.k, n |-> e.n, dg |-> e.dg, push |-> e.push, x |-> e.x]
 EndItem == [k |-> "E", n |-> 0, dg |-> "", push |-> -1, x |-> -1]
 IsBody(k) == k \in {"D", "W"}
-RECURSIVE NormFrom(_, _, _)
-NormFrom(evs, i, acc) ==
-  IF i > Len(evs) THEN acc
+\* acc: items closed so far; cur: the body item still open for merging (or <<>>)
+RECURSIVE NormFrom(_, _, _, _)
+NormFrom(evs, i, acc, cur) ==
+  IF i > Len(evs) THEN acc \o cur
   ELSE LET e == evs[i]
-           a1 == IF IsBody(e.k)
-                 THEN IF e.n = 0 THEN acc                            \* empty body event: nothing
-                      ELSE IF acc # <<>> /\ Last(acc).k = e.k /\ Last(acc).push = e.push /\ Last(acc).x = e.x
-                      THEN [acc EXCEPT ![Len(acc)] = [@ EXCEPT !.n = @ + e.n, !.dg = e.dg]]   \* merge adjacent
-                      ELSE Append(acc, Item(e))
-                 ELSE Append(acc, Item(e))
-           a2 == IF e.end THEN Append(a1, EndItem) ELSE a1 IN
-       NormFrom(evs, i + 1, a2)
-Norm(evs) == NormFrom(evs, 1, <<>>)
+           fits == cur # <<>> /\ cur[1].k = e.k /\ cur[1].push = e.push /\ cur[1].x = e.x
+           tail == IF e.end THEN <<EndItem>> ELSE <<>> IN
+       IF IsBody(e.k)
+       THEN IF e.n = 0                                             \* empty body event: nothing but a possible end
+            THEN IF e.end THEN NormFrom(evs, i + 1, acc \o cur \o tail, <<>>) ELSE NormFrom(evs, i + 1, acc, cur)
+            ELSE LET c2 == IF fits THEN <<[cur[1] EXCEPT !.n = @ + e.n, !.dg = e.dg]>>     \* merge adjacent
+                           ELSE <<Item(e)>>
+                     a2 == IF fits THEN acc ELSE acc \o cur IN
+                 IF e.end THEN NormFrom(evs, i + 1, a2 \o c2 \o tail, <<>>) ELSE NormFrom(evs, i + 1, a2, c2)
+       ELSE NormFrom(evs, i + 1, acc \o cur \o <<Item(e)>> \o tail, <<>>)
+Norm(evs) == NormFrom(evs, 1, <<>>, <<>>)
 
+\* [[sid, events], ...] from the events of each delivery (op "r" lines carry only those)
+RECURSIVE FlatSteps(_, _)
+FlatSteps(steps, i) == IF i > Len(steps) THEN <<>> ELSE steps[i] \o FlatSteps(steps, i + 1)
+StepsObs(steps) == LET all == FlatSteps(steps, 1)
+                       S == {all[i].sid : i \in DOMAIN all}
+                       RECURSIVE Tab(_)
+                       Tab(T) == IF T = {} THEN <<>>
+                                 ELSE LET s == CHOOSE x \in T : TRUE IN
+                                      <<<<s, SelectSeq(all, LAMBDA ev : ev.sid = s)>>>> \o Tab(T \ {s}) IN
+                   Tab(S)
 \* events of one stream out of [[sid, events], ...]
 EvOf(tab, sid) == LET S == {i \in DOMAIN tab : tab[i][1] = sid} IN
                   IF S = {} THEN <<>> ELSE tab[CHOOSE i \in S : TRUE][2]
@@ -59,30 +72,34 @@ Trunc(e) == ToSet(Canon(e).trunc)
 Cmp(e, sid, items) == IF sid \in Trunc(e) THEN NoEnd(items) ELSE items
 
 \* ------------------------------------------------------------------ guard
-ChunkSum(sched, sid) ==
-  LET RECURSIVE Sum(_)
-      Sum(i) == IF i = 0 THEN 0 ELSE Sum(i - 1) + (IF sched[i][1] = sid THEN sched[i][2] ELSE 0) IN Sum(Len(sched))
-FinAt(sched, sid) == {i \in DOMAIN sched : sched[i][1] = sid /\ sched[i][3]}
-LastOf(sched, sid) == {i \in DOMAIN sched : sched[i][1] = sid /\ \A j \in DOMAIN sched : j > i => sched[j][1] # sid}
+\* per stream, in one scan from the end of the schedule: bytes delivered, index
+\* of the last delivery, number of deliveries carrying FIN
+RECURSIVE Scan(_, _, _)
+Scan(sched, sid, i) ==
+  IF i = 0 THEN [sum |-> 0, last |-> 0, fins |-> 0, finLast |-> FALSE]
+  ELSE LET r == Scan(sched, sid, i - 1) IN
+       IF sched[i][1] # sid THEN r
+       ELSE [sum |-> r.sum + sched[i][2], last |-> i, fins |-> r.fins + (IF sched[i][3] THEN 1 ELSE 0), finLast |-> sched[i][3]]
 Guard(e) ==
   LET st == Canon(e).streams IN       \* [[sid, length, fin], ...]
   /\ \A i \in DOMAIN e.sched : e.sched[i][2] > 0 \/ e.sched[i][3]          \* DeliveryOk
   /\ {e.sched[i][1] : i \in DOMAIN e.sched} \subseteq {st[i][1] : i \in DOMAIN st}
   /\ \A i \in DOMAIN st :
-       /\ ChunkSum(e.sched, st[i][1]) = st[i][2]
-       /\ FinAt(e.sched, st[i][1]) = (IF st[i][3] THEN LastOf(e.sched, st[i][1]) ELSE {})
-       /\ st[i][3] => LastOf(e.sched, st[i][1]) # {}
+       LET r == Scan(e.sched, st[i][1], Len(e.sched)) IN
+       /\ r.sum = st[i][2]                                  \* every byte, once
+       /\ r.fins = (IF st[i][3] THEN 1 ELSE 0)              \* FIN iff the stream ends ...
+       /\ st[i][3] => r.finLast                             \* ... and with its last delivery
 
 \* ------------------------------------------------------- statement clauses
-AllSids(e) == SidsOf(e.obs) \cup SidsOf(Canon(e).obs)
-Same(e, F(_)) == \A s \in AllSids(e) :
-                   F(Cmp(e, s, Norm(EvOf(e.obs, s)))) = F(Cmp(e, s, Norm(EvOf(Canon(e).obs, s))))
+\* (the normalised events of every stream are computed once per line: NO for
+\* this run, NC for the canonical run, NS for what was submitted)
+ObsOf(e) == IF e.op = "r" THEN StepsObs(e.steps) ELSE e.obs
+AllSids(e) == SidsOf(ObsOf(e)) \cup SidsOf(ObsOf(Canon(e))) \cup SidsOf(Canon(e).sent)
+NormTab(tab, S) == TLCEval([s \in S |-> Norm(EvOf(tab, s))])     \* evaluated once, not at every use
+Same(e, NO, NC, F(_)) == \A s \in DOMAIN NO : F(Cmp(e, s, NO[s])) = F(Cmp(e, s, NC[s]))
+Arrived(NO, NS, F(_)) == \A s \in DOMAIN NO : F(NO[s]) = F(NS[s])
 Open(e) == e.closed = "" /\ Canon(e).closed = ""
 Id(x) == x
-
-SentSids(e) == SidsOf(Canon(e).sent) \cup SidsOf(e.obs)
-Arrived(e, F(_)) == \A s \in SentSids(e) :
-                      F(Norm(EvOf(e.obs, s))) = F(Norm(EvOf(Canon(e).sent, s)))
 
 \* --------------------------------------------- replay through the model (op "r")
 BytesOf(e, sid) == LET st == Canon(e).bytes IN st[CHOOSE i \in DOMAIN st : st[i][1] = sid][2]
@@ -123,29 +140,32 @@ MeaningOk(e) ==
   \* judged only where the statement applies: no frame cut by a FIN
   Trunc(e) # {} \/
   IF anyErr THEN e.closed # ""
-  ELSE e.closed = "" /\ \A s \in RSids(e) : ObsToks(EvOf(e.obs, s)) = NameToks(e, m(s).toks)
+  ELSE e.closed = "" /\ \A s \in RSids(e) : ObsToks(EvOf(ObsOf(e), s)) = NameToks(e, m(s).toks)
 
 Clauses(e) ==
   IF ~Guard(e) THEN << <<"harness-guard", FALSE>> >> ELSE
-  LET stmt == << <<"independent:connection-closed", (e.closed = "") = (Canon(e).closed = "")>>,
-                 <<"independent:headers", Open(e) => Same(e, Heads)>>,
-                 <<"independent:data", Open(e) => Same(e, Bodies)>>,
-                 <<"independent:end-of-stream", Open(e) => Same(e, Ends)>>,
-                 <<"independent:order", Open(e) => Same(e, Id)>> >> IN
+  LET S  == AllSids(e)
+      NO == NormTab(ObsOf(e), S)
+      NC == NormTab(ObsOf(Canon(e)), S)
+      stmt == << <<"independent:connection-closed", (e.closed = "") = (Canon(e).closed = "")>>,
+                 <<"independent:headers", Open(e) => Same(e, NO, NC, Heads)>>,
+                 <<"independent:data", Open(e) => Same(e, NO, NC, Bodies)>>,
+                 <<"independent:end-of-stream", Open(e) => Same(e, NO, NC, Ends)>>,
+                 <<"independent:order", Open(e) => Same(e, NO, NC, Id)>> >> IN
   IF e.op = "v" THEN
+    LET NS == NormTab(Canon(e).sent, S) IN
     stmt \o << <<"round-trip:connection-closed", e.closed = "">>,
-               <<"round-trip:headers", e.closed = "" => Arrived(e, Heads)>>,
-               <<"round-trip:data", e.closed = "" => Arrived(e, Bodies)>>,
-               <<"round-trip:end-of-stream", e.closed = "" => Arrived(e, Ends)>>,
-               <<"round-trip:order", e.closed = "" => Arrived(e, Id)>> >>
+               <<"round-trip:headers", e.closed = "" => Arrived(NO, NS, Heads)>>,
+               <<"round-trip:data", e.closed = "" => Arrived(NO, NS, Bodies)>>,
+               <<"round-trip:end-of-stream", e.closed = "" => Arrived(NO, NS, Ends)>>,
+               <<"round-trip:order", e.closed = "" => Arrived(NO, NS, Id)>> >>
   ELSE
     LET f == Replay(e, Len(e.sched)) IN
     stmt \o << <<"model:closed", f.c.done = (e.closed # "") /\ (f.c.done => f.c.err = e.closed)>>,
                <<"model:events", f.ok>>,
                <<"model:meaning", MeaningOk(e)>>,
                \* the end of a stream whose last frame is cut by the FIN (outside the statement)
-               <<"model:truncated-end", Open(e) => \A s \in Trunc(e) :
-                    Ends(Norm(EvOf(e.obs, s))) = Ends(Norm(EvOf(Canon(e).obs, s)))>> >>
+               <<"model:truncated-end", Open(e) => \A s \in Trunc(e) \cap S : Ends(NO[s]) = Ends(NC[s])>> >>
 
 TInit == l = 1 /\ Init
 TNext == Judge(Clauses) /\ UNCHANGED vars
